@@ -13,8 +13,8 @@ using namespace c15;
 namespace
 {
 // calibrated bounds (worst ratios observed on the pristine tree are quoted in lib/props.d/c15.py)
-const double B_LP_ON = 16, B_LP_PERP = 16, B_LP_DIST = 16, B_LP_LEN = 16;
-const double B_LL_ON = 16, B_LL_POS = 64, B_LL_PERP = 64, B_LL_LEN = 64, B_LL_DIST = 32, B_LL_PAR = 32;
+const double B_LP_ON = 16, B_LP_PERP = 32, B_LP_DIST = 32, B_LP_LEN = 16;
+const double B_LL_ON = 16, B_LL_POS = 32, B_LL_PERP = 32, B_LL_LEN = 32, B_LL_DIST = 16, B_LL_PAR = 32;
 
 template <class T>
 void
@@ -229,6 +229,16 @@ sub_line_line (Ctx& c, uint64_t idx)
         auto dpar = [&] { return base (Obj ()).kv ("true_distance", (double) Dp).str (); };
         judge (c, "distanceTo(Line3)." + tn + ":parallel", "distanceTo(Line3)." + tn + ".parallel/(eps*W)", (double) r_abs ((R) dg - Dp), eps * W, B_LL_PAR, idx, dpar);
         judge (c, "distanceTo(Line3)." + tn + ":parallel", "distanceTo(Line3)." + tn + ".parallel/(eps*W)", (double) r_abs ((R) dg21 - Dp), eps * W, B_LL_PAR, idx, dpar);
+        if (ok)
+        {
+            // closestPoints claims it computed the pair: then it must be a closest pair of the parallel lines
+            // (segment perpendicular to the common direction, length = distance between the lines)
+            RV<R, 3> G1 = up<R> (g1), G2 = up<R> (g2), s = G1 - G2;
+            double   tolq = eps * (W + (double) len (G1 - P1) + (double) len (G2 - P2));
+            double   e = std::max ((double) r_abs (len (s) - Dp), std::max ((double) (r_abs (dot (s, u1)) / r_sqrt (a11)), (double) (r_abs (dot (s, u2)) / r_sqrt (a22))));
+            judge (c, "closestPoints." + tn + ":parallel_lines_true_but_not_closest", "closestPoints." + tn + ".parallel_true/(eps*(W+|t1|+|t2|))", e, tolq, B_LL_PAR, idx,
+                   [&] { return base (Obj ()).kv ("true_distance", (double) Dp).kv ("segment_length", (double) len (s)).kv ("segment_dot_dir1", (double) dot (s, u1)).str (); });
+        }
         c.sample (gcls, dpar);
         return;
     }
@@ -263,7 +273,9 @@ sub_line_line (Ctx& c, uint64_t idx)
     // closestPoints
     if (!ok)
     {
-        c.fail ("closestPoints." + tn + ":false_for_nonparallel", idx, desc);
+        // "false if parallel or nearly parallel": accepted while sin^2 is within 64 rounding units of zero
+        if (sind * sind < 64 * eps) c.cls ("nearly_parallel_reported_false");
+        else c.fail ("closestPoints." + tn + ":false_for_nonparallel", idx, desc);
         return;
     }
     RV<R, 3> G1 = up<R> (g1), G2 = up<R> (g2), s = G1 - G2;
